@@ -88,6 +88,7 @@ def check_history(alpha, hist, from_step=0, collect_state=None, prefilled=False,
     ref = {'ord': {}, 'trace': {}}
     emitted = 0
     matched = 0
+    last_start = {}
     gen_out = None
     if via_generator:
         # the same events through the lazy entry point that PyKdebugParser.traces uses; a trace is attributed to the step whose
@@ -122,9 +123,11 @@ def check_history(alpha, hist, from_step=0, collect_state=None, prefilled=False,
                 return ('raised:' + type(ex).__name__, i, repr(ex)), emitted, matched
         # ---- reference model step
         d = ref[dom].setdefault(t, {})
+        prev_start = last_start.get((t, ci))
         exp = None
         may_swallow = False
         if q == 1:
+            last_start[(t, ci)] = i
             d[code] = {'req': [], 'opt': set()}
             for w in d.values():
                 w['req'].append(i)
@@ -181,8 +184,7 @@ def check_history(alpha, hist, from_step=0, collect_state=None, prefilled=False,
                 first = alpha.syms[hist[pos[0]]]
                 if not (first[0] == t and first[1] == ci and first[2] == 1):
                     return ('window-does-not-start-with-own-START', i, pos), emitted, matched
-                starts = [j for j in range(i) if alpha.syms[hist[j]] == (t, ci, 1)]
-                if pos[0] != starts[-1]:
+                if pos[0] != prev_start:
                     return ('window-not-from-most-recent-START', i, pos), emitted, matched
             elif pos != [i]:
                 return ('single-event-trace-not-alone', i, pos), emitted, matched
@@ -263,6 +265,7 @@ class C04(Check):
     def shards(self):
         out = [('long', n, fill) for n in ((64, 600, 3000) if self.tier == 'quick' else (64, 600, 3000, 20000))
                for fill in ('K', 'mixed', 'nested')]
+        out += [('long', n, fill) for n in (3000, 20000) for fill in ('foreign', 'foreign+gen')]
         for a, d in self.plan():
             n = len(alphabet(a).syms)
             if n ** d > 5_000_000:
@@ -287,15 +290,21 @@ class C04(Check):
             pat = [sym[(1, 'K:MACH_vm_page_release', 0)], sym[(1, 'BSC_getuid', 0)], sym[(2, 'BSC_getpid', 1)], sym[(1, 'TRACE_DATA_EXEC', 0)],
                    sym[(1, 'U', 3)], sym[(2, 'BSC_getpid', 2)]]
             body = [pat[i % len(pat)] for i in range(n)]
+        elif fill.startswith('foreign'):
+            # the window's thread is silent while another thread emits n records (complete calls and stand-alone records)
+            pat = [sym[(2, 'BSC_getuid', 1)], sym[(2, 'K:MACH_vm_page_release', 0)], sym[(2, 'BSC_getuid', 2)], sym[(2, 'TRACE_DATA_EXEC', 0)]]
+            body = [pat[i % len(pat)] for i in range(n - n % 4)]
         else:
             pat = [sym[(1, 'BSC_getuid', 1)], sym[(1, 'K:MACH_vm_page_release', 0)], sym[(1, 'BSC_getuid', 2)]]
             body = [pat[i % len(pat)] for i in range(n - n % 3)]
         hist = tuple([S] + body + [E_])
         saved = alpha.events
-        alpha.events = [[Kevent(pos, DATA, (1, 2, 3, 4), t, alpha.codes[ci][1] | q, alpha.codes[ci][1], q) if si == hist[pos] else None
-                         for si, (t, ci, q) in enumerate(alpha.syms)] for pos in range(len(hist))]
+        alpha.events = []
+        for pos, si in enumerate(hist):
+            t, ci, q = alpha.syms[si]
+            alpha.events.append({si: Kevent(pos, DATA, (1, 2, 3, 4), t, alpha.codes[ci][1] | q, alpha.codes[ci][1], q)})
         try:
-            bad, emitted, matched = check_history(alpha, hist, 0, None)
+            bad, emitted, matched = check_history(alpha, hist, 0, None, via_generator=fill.endswith('+gen'))
         finally:
             alpha.events = saved
         acc.case(nontrivial=True, transitions=len(hist), outcome=h64(('long', n, fill)))
